@@ -4,7 +4,7 @@ import gen_http as G
 
 HARNESS = "rx_driver"
 LEAN_MODULES = ["ViaProofs.C06"]
-LEMMA_MODULES = ['ViaProofs.Trans.RL', 'ViaProofs.Trans.FL', 'ViaProofs.Trans.CH', 'ViaProofs.Trans.MH', 'ViaProofs.Trans.CK']
+LEMMA_MODULES = ['ViaProofs.Trans.RL', 'ViaProofs.Trans.FL', 'ViaProofs.Trans.CH', 'ViaProofs.Trans.MH', 'ViaProofs.Trans.CK', 'ViaProofs.Trans.RQ', 'ViaProofs.Trans.RR']
 REQUIRED_THEOREMS = ["Via.C06"]
 LEVEL = "proof"
 LEVEL_TEXT = ('PROOF that after every reachable receiver state the retained bytes are bounded by an explicit formula in the configured limits (invariant over all byte streams and fragmentations); translated parsers as C01; correspondence on endless-stream families (sizes after every receive compared with the bound).')
@@ -14,7 +14,7 @@ RULE = ("adversarial endless streams (empty-name lines, repeated-name lines, dis
         "harness (all buffers of the receiver) are compared with B(cfg) computed from the limits, and the stream must be "
         "rejected within N(cfg) bytes when the head never ends; non-trivial = stream longer than the bound; distinct = "
         "distinct (family, config, fragmentation)")
-TRUSTED_BASE = ["tools/cxx2lean.py (translator of the parse_char / parse state machines and of message_headers::parse and rx_chunk::parse: RL, FL, CH from the current C++ into Lean; the model is proved equal to the translation in ViaProofs/Trans)", "Lean 4.33 kernel", "axioms: propext, Classical.choice, Quot.sound at most",
+TRUSTED_BASE = ["tools/cxx2lean.py + tools/cxx2lean_rx.py (translator of the parse_char / parse state machines, message_headers::parse, rx_chunk::parse, rx_request / rx_response::parse and request_receiver / response_receiver::receive + clear from the current C++ into Lean; the model is proved equal to the translation in ViaProofs/Trans; NOT translated and mapped by name to model functions: the header look-ups of message_headers (find, content_length, is_chunked, expect_continue, close_connection))", "Lean 4.33 kernel", "axioms: propext, Classical.choice, Quot.sound at most",
                 "rx_driver (-fno-access-control to read the private buffers) + via_model driver"]
 ASSUMPTIONS = ["retained = method + target + header map + field in progress + body + chunk data/size/extension + trailers",
                "capacity of std::string / std::vector (allocator slack) is not modelled"]
